@@ -90,11 +90,17 @@ func compV(h *chat.ComponentHolder, p proto.Protocol) V {
 		return X(nil)
 	}
 	if p >= version.Minecraft_1_20_3.Protocol {
+		if len(h.BinaryTag.Data) != 0 || h.BinaryTag.Type != 0 {
+			return X(append([]byte{h.BinaryTag.Type}, h.BinaryTag.Data...)) // as decoded: the raw tag
+		}
 		bt, err := h.AsBinaryTag()
 		if err != nil {
 			return XS("!" + err.Error())
 		}
 		return X(append([]byte{bt.Type}, bt.Data...))
+	}
+	if h.Component == nil && len(h.BinaryTag.Data) == 0 {
+		return X(h.JSON) // as decoded: the raw string (Decode does not parse it)
 	}
 	j, err := h.AsJson()
 	if err != nil {
